@@ -41,7 +41,7 @@ def plan(ctx):
     t = ctx.thorough
     cases = [("readset", i) for i in range(60 if t else 8)]
     cases += [("history", i) for i in range(60 if t else 9)]
-    cases += [("paths", i) for i in range(40 if t else 6)]
+    cases += [("paths", i) for i in range(40 if t else 10)]
     cases += [("mpool", i) for i in range(10 if t else 2)]
     cases += [("rewrite", i) for i in range(14 if t else 6)]
     return cases
@@ -312,8 +312,6 @@ def readset_case(ctx, g):
 def evaluated_rows(spec, N, parent_calls):
     """library rows whose likelihoods rejection_sample evaluates, in evaluation order"""
     o = spec["opts"]
-    if spec["in_memory"]:
-        return list(range(N))
     n = o.get("n_prior_samples") or N
     if o.get("randomize_prior_order"):
         ch = [c for c in parent_calls if c["method"] == "choice"]
@@ -466,10 +464,16 @@ def paths_case(ctx, g):
     seed = hl.seed_of(rng)
     base = hl.gen_spec(rng, N, entry=entry, source="object", in_memory=False)
     o = base["opts"]
-    if g["index"] % 4 < 2:
-        # stratum in which the in-memory path is documented-equivalent too (it ignores these options)
+    if g["index"] % 4 == 0:
+        # a quarter of the cases without the truncation / shuffle options
         for k in ("randomize_prior_order", "n_prior_samples", "max_prior_samples"):
             o.pop(k, None)
+    else:
+        orng = ctx.case_rng("paths-options", g["index"])
+        if orng.random() < 0.6:
+            o["randomize_prior_order"] = True
+        if entry == "rejection" and orng.random() < 0.6:
+            o["n_prior_samples"] = int(orng.integers(max(1, N // 2), N + 1))
     if entry == "rejection":
         o["return_all_logprobs"] = True
     else:
@@ -484,14 +488,15 @@ def paths_case(ctx, g):
             v["source"] = source
             v["opts"]["n_batches"] = nb
             variants.append(v)
-    mem_ok = not o.get("randomize_prior_order") and o.get("n_prior_samples") is None and o.get("max_prior_samples") is None
-    if mem_ok:
-        v = copy.deepcopy(base)
-        v["in_memory"] = True
-        v["source"] = "object"
-        for k in ("n_batches", "n_prior_samples", "randomize_prior_order", "max_prior_samples"):
-            v["opts"].pop(k, None)
-        variants.append(v)
+    # the in-memory path takes the same options (n_prior_samples, randomize_prior_order, max_prior_samples) and must
+    # evaluate and accept the same prior samples with equal seeds; only n_batches has no meaning there
+    v = copy.deepcopy(base)
+    v["in_memory"] = True
+    v["source"] = "object"
+    v["opts"].pop("n_batches", None)
+    variants.append(v)
+    if o.get("randomize_prior_order") or o.get("n_prior_samples") is not None or o.get("max_prior_samples") is not None:
+        ctx.count("paths:in-memory variant with n_prior_samples / max_prior_samples / randomize_prior_order")
     results = []
     with hl.Scratch("c05") as sc:
         path = sc.write_library(lib)
@@ -552,6 +557,11 @@ def paths_case(ctx, g):
             maxp = r["spec"]["opts"].get("max_posterior_samples") or len(lls)
             m = ctx.model({"op": "hist.accepted", "lls": core.bits_list(lls), "uu": core.bits_list(uu), "maxPost": int(maxp)})["accepted"]
             rows_eval = evaluated_rows(r["spec"], N, r["calls"])
+            if rows_eval is None or len(rows_eval) != len(lls):
+                # a shuffle was requested but no choice() was drawn, or another number of rows was evaluated: the
+                # accepted-set relation above decides (the evaluated rows cannot be reconstructed here)
+                ctx.count("paths:evaluated rows not reconstructible")
+                continue
             model_rows = [rows_eval[k] for k in m]
             ctx.evaluated(rel2, (r["route"], len(m) not in (0, len(lls))))
             if model_rows != r["acc"]:
@@ -765,5 +775,7 @@ def post(ctx):
     ctx.require("iterative cases needing >= 2 rounds", c["paths:iterative-multi-round"], 2)
     ctx.require("same-name cache file re-written in other units between calls", c["rewrite:unit-change"], 4)
     ctx.require("sampler with log-probabilities on a re-written cache file", c["rewrite:sampler-after-rewrite"], 6)
+    ctx.require("in-memory path compared under n_prior_samples / max_prior_samples / randomize_prior_order",
+                c["paths:in-memory variant with n_prior_samples / max_prior_samples / randomize_prior_order"], 3)
     ctx.require("multi-process marginal calls", c["mpool:marginal-calls"], 6)
     ctx.require("multi-process accepted-set comparisons", c["mpool:accepted-set-comparisons"], 2)
